@@ -95,6 +95,28 @@ Theorem loaded_sample_block_covers_every_kernel_read : forall skip flags s file 
 Proof. exact loaded_8bit_mono_sample_covers_every_kernel. Qed.
 Print Assumptions loaded_sample_block_covers_every_kernel_read.
 
+(* ... and for every layout: 8-bit mono / stereo (the kernel's elements are the bytes of the block, origin after the 4 guard bytes)
+   and 16-bit mono / stereo (the elements are its 16-bit words, origin after 2 words); positions are in elements (frame x channels) *)
+Theorem loaded_8bit_sample_block_covers_every_kernel_read : forall skip flags s file pos nbuf s' blk pos' c a count ramp st buf,
+  load_sample skip flags s file pos nbuf = Loaded s' blk pos' ->
+  framelen_of (s_flg s) = chn_of c ->
+  0 <= s_frac st < 65536 ->
+  (forall k, 0 <= k < count -> 0 <= pos_at c a st k <= (SampleLoad.s_len s' + 1) * chn_of c) ->
+  (Z.to_nat (Z.max 0 count) * (if k_sout c then 2 else 1) <= length buf)%nat ->
+  kernel c {| m_data := blk; m_base := 4 |} a count ramp st buf <> None.
+Proof. exact loaded_8bit_sample_covers_every_kernel. Qed.
+Print Assumptions loaded_8bit_sample_block_covers_every_kernel_read.
+
+Theorem loaded_16bit_sample_block_covers_every_kernel_read : forall skip flags s file pos nbuf s' blk pos' c a count ramp st buf,
+  load_sample skip flags s file pos nbuf = Loaded s' blk pos' ->
+  framelen_of (s_flg s) = 2 * chn_of c ->
+  0 <= s_frac st < 65536 ->
+  (forall k, 0 <= k < count -> 0 <= pos_at c a st k <= (SampleLoad.s_len s' + 1) * chn_of c) ->
+  (Z.to_nat (Z.max 0 count) * (if k_sout c then 2 else 1) <= length buf)%nat ->
+  kernel c {| m_data := words_of blk; m_base := 2 |} a count ramp st buf <> None.
+Proof. exact loaded_16bit_sample_covers_every_kernel. Qed.
+Print Assumptions loaded_16bit_sample_block_covers_every_kernel_read.
+
 (* non-vacuity: a truncated 16-bit planar-stereo delta big-endian sample with an inverted loop;
    a truncated ADPCM sample; both really produce Loaded blocks *)
 Example c20_nonvacuous :
